@@ -1086,6 +1086,65 @@ impl<'a> VisitMut for Rewriter<'a> {
                 self.pending_lets.push(parse_quote!(let #pn = #g;));
                 *e = parse_quote!(#f(&#x, #pn));
             }
+            Expr::Match(m) if m.arms.iter().any(|a| matches!(a.pat, syn::Pat::Slice(_))) => {
+                // R40: `match S { [l0, l1, name @ .., r0] => A, .., _ => Z }` over a slice -> an if/else chain on the
+                // length and the literal elements, `name` bound to the sub-slice (the language's definition of
+                // slice patterns; only literal elements, at most one rest, no guards, a final `_` arm)
+                let mut ok = true;
+                let mut chain: Vec<(Option<Expr>, Vec<Stmt>, Expr)> = vec![];
+                for arm in m.arms.iter() {
+                    if arm.guard.is_some() { ok = false; break; }
+                    match &arm.pat {
+                        syn::Pat::Wild(_) => chain.push((None, vec![], (*arm.body).clone())),
+                        syn::Pat::Slice(ps) => {
+                            let mut pre: Vec<Expr> = vec![];
+                            let mut post: Vec<Expr> = vec![];
+                            let mut rest: Option<Option<syn::Ident>> = None;
+                            for el in ps.elems.iter() {
+                                match el {
+                                    syn::Pat::Lit(l) => {
+                                        let le: Expr = Expr::Lit(syn::ExprLit { attrs: vec![], lit: l.lit.clone() });
+                                        if rest.is_none() { pre.push(le) } else { post.push(le) }
+                                    }
+                                    syn::Pat::Rest(_) if rest.is_none() => rest = Some(None),
+                                    syn::Pat::Ident(pi) if rest.is_none() && pi.by_ref.is_none() && pi.mutability.is_none()
+                                        && matches!(pi.subpat.as_ref().map(|(_, p)| &**p), Some(syn::Pat::Rest(_))) => rest = Some(Some(pi.ident.clone())),
+                                    _ => { ok = false; }
+                                }
+                            }
+                            let k = pre.len();
+                            let mm = post.len();
+                            let n = k + mm;
+                            let mut cond: Expr = if rest.is_some() { parse_quote!(vx_s.len() >= #n) } else { parse_quote!(vx_s.len() == #n) };
+                            for (i, le) in pre.iter().enumerate() {
+                                cond = parse_quote!(#cond && vx_s[#i] == #le);
+                            }
+                            for (j, le) in post.iter().enumerate() {
+                                let back = mm - j;
+                                cond = parse_quote!(#cond && vx_s[vx_s.len() - #back] == #le);
+                            }
+                            let mut binds: Vec<Stmt> = vec![];
+                            if let Some(Some(id)) = rest {
+                                binds.push(parse_quote!(let #id = &vx_s[#k..vx_s.len() - #mm];));
+                            }
+                            chain.push((Some(cond), binds, (*arm.body).clone()));
+                        }
+                        _ => { ok = false; }
+                    }
+                }
+                if !ok || chain.last().map_or(true, |c| c.0.is_some()) || chain.iter().rev().skip(1).any(|c| c.0.is_none()) {
+                    self.errors.push("unsupported-construct: match with slice patterns outside the supported form (R40)".into());
+                } else {
+                    let scrut = (*m.expr).clone();
+                    let mut acc: Expr = chain.pop().unwrap().2;
+                    while let Some((cond, binds, body)) = chain.pop() {
+                        let cond = cond.unwrap();
+                        acc = parse_quote!(if #cond { #(#binds)* #body } else { #acc });
+                    }
+                    self.logr("R40", line, "match with slice patterns -> if/else chain on length and literal elements");
+                    *e = parse_quote!({ let vx_s = #scrut; #acc });
+                }
+            }
             Expr::MethodCall(mc) if mc.method == "format" && mc.args.len() == 1
                 && matches!(&*mc.receiver, Expr::MethodCall(im) if im.method == "iter" && im.args.is_empty())
                 && self.expr_map.iter().any(|(f, _)| f == "__adapter_iter_format") =>
